@@ -16,6 +16,7 @@ CONSTANTS
   Alias <- AliasDemo
   TrackTouch = FALSE
   MisTag = {}
+  BufOrder = "seq"
 INVARIANTS TypeOK ReadsLastCommitted ScansExactMembers IterSound
 PROPERTY OnlyCommitChanges
 CHECK_DEADLOCK FALSE
